@@ -7,7 +7,7 @@
   fact about the encoder it is a NAMED hypothesis (`qr_roundtrip_partial`).
 -/
 import Gzx.Proofs.QRSegments
-
+import Gzx.Proofs.QRInterleave
 namespace Gzx.Properties.C01
 open Gzx Gzx.QRDec Gzx.QRPack Gzx.ECI
 
@@ -163,5 +163,159 @@ theorem unmask_dim (k : Nat) (m : Matrix) : (unmask k m).dim = m.dim := rfl
 
 /-- mirroring (transposition) twice restores the matrix -/
 theorem mirror_involutive (m : Matrix) (x y : Nat) : (mirrorMatrix (mirrorMatrix m)).bit x y = m.bit x y := rfl
+
+/-! ## whole bit streams: one segment, terminator, padding -/
+
+/-- a payload followed by the full terminator and arbitrary padding, or by a shortened terminator -/
+def Terminated (tail : List Bool) : Prop := (∃ pad, tail = List.replicate 4 false ++ pad) ∨ tail.length < 4
+
+theorem parseLoop_terminated (reg : Registry) (ver : Nat) (hint : Hint) (fuel : Nat) (st : PSt)
+    (tail : List Bool) (ht : Terminated tail) : parseLoop reg ver hint (fuel + 1) st tail = .ok st := by
+  rcases ht with ⟨pad, rfl⟩ | h
+  · exact (terminate_parse reg ver hint fuel st).1 pad
+  · exact (terminate_parse reg ver hint fuel st).2 tail h
+
+/-- numeric symbol contents: the data codewords' bit string `segment ++ terminator ++ padding` parses
+    to exactly the digits (one raw ASCII segment, no byte segments, symbology modifier 1) -/
+theorem parse_numeric_stream (reg : Registry) (ver : Nat) (hint : Hint)
+    (ds : List Nat) (hd : ∀ d ∈ ds, d < 10) (hlen : ds.length < 2 ^ countWidth 0 ver)
+    (tail : List Bool) (ht : Terminated tail) :
+    parseStream reg (segment 1 (countWidth 0 ver) ds.length (packNumeric ds) ++ tail) ver hint =
+      .ok ⟨[.raw (ds.map (48 + ·))], [], -1, -1, 1⟩ := by
+  unfold parseStream
+  rw [bits_numeric_inv reg ver hint _ {} ds hd hlen tail]
+  obtain ⟨f, hf⟩ : ∃ f, (segment 1 (countWidth 0 ver) ds.length (packNumeric ds) ++ tail).length = f + 1 :=
+    ⟨_, (Nat.succ_pred_eq_of_pos (by simp [segment]; omega)).symm⟩
+  rw [hf, parseLoop_terminated reg ver hint f _ tail ht]
+  rfl
+
+theorem parse_alnum_stream (reg : Registry) (ver : Nat) (hint : Hint)
+    (cs : List Nat) (hc : ∀ c ∈ cs, c < 45) (hlen : cs.length < 2 ^ countWidth 1 ver)
+    (tail : List Bool) (ht : Terminated tail) :
+    parseStream reg (segment 2 (countWidth 1 ver) cs.length (packAlnum cs) ++ tail) ver hint =
+      .ok ⟨[.raw (cs.map alnumCharOf)], [], -1, -1, 1⟩ := by
+  unfold parseStream
+  rw [bits_alnum_inv reg ver hint _ {} rfl cs hc hlen tail]
+  obtain ⟨f, hf⟩ : ∃ f, (segment 2 (countWidth 1 ver) cs.length (packAlnum cs) ++ tail).length = f + 1 :=
+    ⟨_, (Nat.succ_pred_eq_of_pos (by simp [segment]; omega)).symm⟩
+  rw [hf, parseLoop_terminated reg ver hint f _ tail ht]
+  rfl
+
+/-- byte-mode contents without ECI: the bytes come back with the charset `guessCharset` picks (UTF-8
+    for UTF-8 payloads with a multi-byte character: `C15.guess_utf8`) -/
+theorem parse_byte_stream (reg : Registry) (ver : Nat) (hint : Hint)
+    (bs : List Nat) (hb : ∀ b ∈ bs, b < 256) (hlen : bs.length < 2 ^ countWidth 2 ver)
+    (cs : Charset) (hcs : guessCharset reg bs hint = .ok cs)
+    (tail : List Bool) (ht : Terminated tail) :
+    parseStream reg (segment 4 (countWidth 2 ver) bs.length (packBytes bs) ++ tail) ver hint =
+      .ok ⟨[.text cs bs], [bs], -1, -1, 1⟩ := by
+  unfold parseStream
+  rw [bits_byte_inv_guess reg ver hint _ {} rfl bs hb hlen cs hcs tail]
+  obtain ⟨f, hf⟩ : ∃ f, (segment 4 (countWidth 2 ver) bs.length (packBytes bs) ++ tail).length = f + 1 :=
+    ⟨_, (Nat.succ_pred_eq_of_pos (by simp [segment]; omega)).symm⟩
+  rw [hf, parseLoop_terminated reg ver hint f _ tail ht]
+  rfl
+
+theorem parse_kanji_stream (reg : Registry) (ver : Nat) (hint : Hint)
+    (ps : List (Nat × Nat)) (hp : ∀ p ∈ ps, kanjiPairOK p) (hlen : ps.length < 2 ^ countWidth 3 ver)
+    (tail : List Bool) (ht : Terminated tail) :
+    parseStream reg (segment 8 (countWidth 3 ver) ps.length (packKanji ps) ++ tail) ver hint =
+      .ok ⟨[.text .sjis (ps.flatMap (fun p => [p.1, p.2]))], [], -1, -1, 1⟩ := by
+  unfold parseStream
+  rw [bits_kanji_inv reg ver hint _ {} ps hp hlen tail]
+  obtain ⟨f, hf⟩ : ∃ f, (segment 8 (countWidth 3 ver) ps.length (packKanji ps) ++ tail).length = f + 1 :=
+    ⟨_, (Nat.succ_pred_eq_of_pos (by simp [segment]; omega)).symm⟩
+  rw [hf, parseLoop_terminated reg ver hint f _ tail ht]
+  rfl
+
+/-- non-vacuity: ISO 18004 Annex I example "01234567", version 1 -/
+example : parseStream [] (segment 1 (countWidth 0 1) 8 (packNumeric [0, 1, 2, 3, 4, 5, 6, 7]) ++
+    (List.replicate 4 false ++ natToBits 8 0xEC)) 1 .none =
+    .ok ⟨[.raw [48, 49, 50, 51, 52, 53, 54, 55]], [], -1, -1, 1⟩ := by decide
+
+/-! ## `interleave_deinterleave` -/
+
+/-- re-export: see `Properties.C05.interleave_deinterleave` / Proofs/QRInterleave.lean -/
+theorem interleave_deinterleave {d e : Nat} {short long : List (List Nat × List Nat)}
+    (w : ShortLong d e short long) (v : VersionInfo) (ec : EC) (eb : ECBlocks)
+    (heb : v.ecBlocks[ec.index]? = some eb) (hec : eb.ecPerBlock = e)
+    (hshape : blockShapes eb = (short ++ long).map (fun b => (b.1.length, e + b.1.length)))
+    (htot : v.totalCodewords = (QRDec.interleave (short ++ long)).length) :
+    getDataBlocks (QRDec.interleave (short ++ long)) v ec =
+      .ok ((short ++ long).map (fun b => (b.1.length, b.1 ++ b.2))) :=
+  QRDec.interleave_deinterleave w v ec eb heb hec hshape htot
+
+/-! ## the composed round trip -/
+
+/-- `qr_roundtrip_partial` — composition skeleton of `Decoder.Decode`: when every layer reads back what
+    was written, the first decoding attempt succeeds (the mirrored retry is not entered) and the
+    result carries the parsed content, the error-correction level of the format information and the
+    version.  FULL statement (kept for reference):
+
+      qr_roundtrip : WFqr T → codecOK cs → fits t cfg → decode T (encodeM T t cfg) = ok (t, cfg.ec)
+
+    Each hypothesis below is one layer, named after the theorem that discharges it:
+      * `h_version`  — version_info_inv  (encoder writes both copies / dimension class: QRRef, C07)
+      * `h_format`   — format_info_inv   (encoder writes both copies: QRRef, C07)
+      * `h_place`    — place_read_inv + mask_enc_eq_dec (zig-zag placement and masking: QRRef, C07)
+      * `h_deint`    — interleave_deinterleave (PROVED above, given the block structure)
+      * `h_rs`       — rs_decode_encode (Reed-Solomon on undamaged blocks: C04) through `correctBlocks_map`
+      * `h_parse`    — bits_*_inv + terminate_parse (PROVED above: `parse_*_stream`)
+    What is missing for the full statement is exactly the encoder-side facts (work package C07/C13:
+    `Gzx.QRRef`) and C04; they were not merged into this branch. -/
+theorem qr_roundtrip_partial (T : Tables) (rs : List Nat → Nat → Res (List Nat)) (hint : Hint) (m : Matrix)
+    (hdim : ¬ (m.dim < 21 ∨ m.dim % 4 ≠ 1))
+    (v : VersionInfo) (p1 : Parser) (h_version : readVersion T { m := m } = .ok (v, p1))
+    (fi : EC × Nat) (p2 : Parser) (h_format : readFormatInformation T p1 = .ok (fi, p2))
+    (raw : List Nat) (p3 : Parser) (h_place : readCodewords T p2 = (.ok raw, p3))
+    (blocks : List (Nat × List Nat)) (h_deint : getDataBlocks raw v fi.1 = .ok blocks)
+    (data : List Nat) (h_rs : correctBlocks rs blocks = .ok data)
+    (parsed : Parsed) (h_parse : parse T.eci data v.num hint = .ok parsed) :
+    decode T rs hint m = .ok ⟨parsed, fi.1, v.num, data, false⟩ := by
+  unfold decode newParser
+  simp only [hdim, if_false]
+  unfold decodeOnce
+  simp only [h_version, h_format, h_place, h_deint, wrapF, bind, Except.bind, h_rs, h_parse]
+
+/-- the same with the proved layers plugged in, for numeric contents: given the matrix-level reads
+    (hypotheses of C07), Reed-Solomon on the undamaged blocks (hypothesis of C04) and the encoder's
+    terminated bit stream being the standard's packing (hypothesis `h_stream`, QRRef), decoding returns
+    the digits and the level. -/
+theorem qr_roundtrip_numeric_partial (T : Tables) (rs : List Nat → Nat → Res (List Nat)) (hint : Hint) (m : Matrix)
+    (hdim : ¬ (m.dim < 21 ∨ m.dim % 4 ≠ 1))
+    (v : VersionInfo) (p1 : Parser) (h_version : readVersion T { m := m } = .ok (v, p1))
+    (fi : EC × Nat) (p2 : Parser) (h_format : readFormatInformation T p1 = .ok (fi, p2))
+    {d e : Nat} {short long : List (List Nat × List Nat)} (w : ShortLong d e short long)
+    (p3 : Parser) (h_place : readCodewords T p2 = (.ok (QRDec.interleave (short ++ long)), p3))
+    (eb : ECBlocks) (heb : v.ecBlocks[fi.1.index]? = some eb) (hec : eb.ecPerBlock = e)
+    (hshape : blockShapes eb = (short ++ long).map (fun b => (b.1.length, e + b.1.length)))
+    (htot : v.totalCodewords = (QRDec.interleave (short ++ long)).length)
+    (h_rs : ∀ b ∈ short ++ long, rs (b.1 ++ b.2) e = .ok (b.1 ++ b.2))
+    (ds : List Nat) (hd : ∀ x ∈ ds, x < 10) (hlen : ds.length < 2 ^ countWidth 0 v.num)
+    (tail : List Bool) (ht : Terminated tail)
+    (h_stream : bytesToBits ((short ++ long).flatMap (·.1)) =
+      segment 1 (countWidth 0 v.num) ds.length (packNumeric ds) ++ tail) :
+    decode T rs hint m =
+      .ok ⟨⟨[.raw (ds.map (48 + ·))], [], -1, -1, 1⟩, fi.1, v.num, (short ++ long).flatMap (·.1), false⟩ := by
+  apply qr_roundtrip_partial T rs hint m hdim v p1 h_version fi p2 h_format _ p3 h_place
+    ((short ++ long).map (fun b => (b.1.length, b.1 ++ b.2)))
+    (QRDec.interleave_deinterleave w v fi.1 eb heb hec hshape htot)
+  · apply correctBlocks_map rs (short ++ long) (short ++ long) rfl
+    intro p hp
+    have hpp : p.1 = p.2 := by
+      have := List.of_mem_zip hp
+      obtain ⟨i, hi⟩ := List.getElem?_of_mem hp
+      rw [List.getElem?_zip_eq_some] at hi
+      exact Option.some.inj (hi.1.symm.trans hi.2)
+    rw [← hpp]
+    refine ⟨rfl, ?_⟩
+    have hb := List.of_mem_zip hp
+    have hl : p.1.2.length = e := (w.data_len p.1 hb.1).2.2
+    have : (p.1.1 ++ p.1.2).length - p.1.1.length = e := by simp [hl]
+    rw [this]
+    exact h_rs p.1 hb.1
+  · unfold parse
+    rw [h_stream]
+    exact parse_numeric_stream T.eci v.num hint ds hd hlen tail ht
 
 end Gzx.Properties.C01
